@@ -10,15 +10,18 @@ CONSTANTS
   MaxJoins = 2
   MaxReq = 6
   MaxStatus = 2
+  MaxPending = 100
+  PerPeer = 100
   Weak_NoCommitVerify = FALSE
   Weak_SaveBeforeValidate = FALSE
   Weak_NoRedo = FALSE
   Weak_SeenCommitUnchecked = FALSE
+  Weak_RedoAlwaysCountsPending = FALSE
   Weak_NilSlotAddressUnchecked = FALSE
   Weak_StaleMaxPeerHeight = FALSE
   Weak_NoBlockValidation = FALSE
   Weak_PartSetNotCompared = FALSE
 INIT Init
 NEXT Next
-INVARIANTS OnlyCanonical CommitCovers FullyValidated AppliedIsStored LiarsDropped CleanHandover SeenCommitsClean TipWhenHonest PoolShape
+INVARIANTS OnlyCanonical CommitCovers FullyValidated AppliedIsStored LiarsDropped PendingCounterExact CleanHandover SeenCommitsClean TipWhenHonest PoolShape
 CHECK_DEADLOCK FALSE
